@@ -255,5 +255,3 @@ impl Shared {
         String::from_utf8_lossy(&v).into_owned()
     }
 }
-
-pub static _UNUSED: AtomicU64 = AtomicU64::new(0);
